@@ -1176,7 +1176,7 @@ static void do_prng(World &w, TaskState &t, const Op &op, int index) {
 }
 
 // ---------------------------------------------------------------- system entropy source (C18)
-extern "C" int tinyjambu_trng_generate(unsigned char *out);
+extern "C" int sim_trng_call(unsigned char *out);   // build.sh: trngshim.c (calls the tree's system entropy source, -2 if there is none)
 static void do_trng(World &w, TaskState &t, const Op &op, int index) {
     CurOp &c = t.cur;
     c.gen = nullptr; c.os_req = 0; c.os_active = false; c.os_terminal = -1; c.os_calls = 0; c.os_extra = 0; c.os_have_ok = false;
@@ -1184,7 +1184,8 @@ static void do_trng(World &w, TaskState &t, const Op &op, int index) {
     Buf out(32, (size_t)(op.b & 7));
     memset(out.p, 0xA5, 32);
     int rc;
-    { CallScope cs(t); rc = tinyjambu_trng_generate(out.p); }
+    { CallScope cs(t); rc = sim_trng_call(out.p); }
+    if (rc == -2) { skip(w); return; }   // this tree has no separately callable system source: covered through the PRNG ops only
     bump(w, CT_P_TRNG_CALLS);
     bool on = (w.armed == C18 || w.armed == PR_NONE);
     if (on) {
